@@ -19,6 +19,7 @@ import (
 	"bytes"
 	"crypto/cipher"
 	"fmt"
+	"go.dedis.ch/kyber/v4/sign/anon"
 	"math/big"
 	"os"
 	"path/filepath"
@@ -371,6 +372,111 @@ func c17Embed(c *kc.Ctx) {
 			} else {
 				c.Violation(cs.g.Name+":data-differs-from-spec", fmt.Sprintf("%s Data() = %s, specification (length field vs EmbedLen) %s", cs.g.Name, got, o), rep)
 			}
+		}
+	}
+}
+
+// c17LinkageBase: the base point of a linkable ring signature's tag (sign/anon/sig.go) is
+// Pick(suite.XOF(scope)) in the signing suite's own group: a deterministic function of the scope and of the
+// suite. The same scope is used on several groups in one process, in both orders; the tag a verifier returns
+// must be x·Pick(XOF(scope)) computed independently in that group.
+func c17LinkageBase(c *kc.Ctx) {
+	rng := c.Rng.Fork("c17/linkage")
+	names := []string{"ed25519", "p256", "ed25519vt-proj", "qr512", "ed25519", "p256"}
+	for si, scope := range [][]byte{[]byte("C17 linkage scope"), {}, rng.Bytes(40)} {
+		order := names
+		if si%2 == 1 {
+			order = []string{"p256", "qr512", "ed25519", "ed25519vt-ext", "p256"}
+		}
+		for _, name := range order {
+			g := groups.ByName(name)
+			if g == nil {
+				continue
+			}
+			suite := &decSuite{Group: g.Group, rnd: rng.Fork("stream" + name)}
+			x := g.Group.Scalar().Pick(rng)
+			X := g.Group.Point().Mul(x, nil)
+			other := g.Group.Point().Mul(g.Group.Scalar().Pick(rng), nil)
+			ring := anon.Set{other, X}
+			msg := rng.Bytes(20)
+			res := embTimeout(func() string {
+				sig := anon.Sign(suite, msg, ring, scope, 1, x)
+				tag, err := anon.Verify(suite, msg, ring, scope, sig)
+				if err != nil {
+					return "verify-error: " + err.Error()
+				}
+				want := g.Group.Point().Mul(x, g.Group.Point().Pick(suite.XOF(scope)))
+				wb, _ := want.MarshalBinary()
+				if !bytes.Equal(tag, wb) {
+					return "tag differs from x·Pick(XOF(scope))"
+				}
+				return "ok"
+			})
+			c.Eval(1)
+			c.CountKind(name + ":linkage-base")
+			c.Nontrivial(fmt.Sprintf("link|%s|%x|%x", name, scope, msg))
+			if res != "ok" {
+				c.Violation(name+":linkage-base", fmt.Sprintf("%s: linkable ring signature with scope %x (the same scope was used on other groups before): %s", name, scope, res),
+					map[string]any{"group": name, "scope": kc.HexB(scope), "order": order})
+			}
+		}
+	}
+}
+
+// c17DataLengthSweep: Data() on points that were not produced by Embed — decoded from encodings whose length
+// field (the low byte of an Edwards encoding) takes every interesting value around EmbedLen and PointLen —
+// against the specification (error iff the length field exceeds EmbedLen).
+func c17DataLengthSweep(c *kc.Ctx) {
+	rng := c.Rng.Fork("c17/data-length")
+	var lines []string
+	type dcase struct {
+		g  *groups.G
+		pt kyber.Point
+	}
+	var cases []dcase
+	for _, name := range []string{"ed25519", "ed25519-allowvt", "ed25519vt-proj", "ed25519vt-ext"} {
+		g := groups.ByName(name)
+		if g == nil {
+			continue
+		}
+		for _, l := range []int{0, 1, 2, 27, 28, 29, 30, 31, 32, 33, 34, 63, 64, 127, 128, 200, 254, 255} {
+			for tries, found := 0, 0; tries < 400 && found < 2; tries++ {
+				b := rng.Bytes(32)
+				b[0] = byte(l)
+				b[31] &= 0x7f
+				p := g.Group.Point()
+				if kc.Recover(func() string {
+					if p.UnmarshalBinary(b) != nil {
+						return "err"
+					}
+					return ""
+				}) != "" {
+					continue
+				}
+				found++
+				lines = append(lines, "data ed25519 "+kc.HexB(b))
+				cases = append(cases, dcase{g, p})
+			}
+		}
+	}
+	outs := c.ModelDedup(lines)
+	for k, o := range outs {
+		cs := cases[k]
+		c.Eval(1)
+		c.Program(1)
+		got := embTimeout(func() string {
+			d, err := cs.pt.Data()
+			if err != nil {
+				return "err"
+			}
+			return "ok " + kc.HexB(d)
+		})
+		c.CountKind(cs.g.Name + ":data-length-sweep:" + strings.SplitN(got, " ", 2)[0])
+		if got != o {
+			rep := map[string]any{"group": cs.g.Name, "op": "Data", "line": lines[k], "impl": got, "model": o}
+			c.Disagree(lines[k], got, o, cs.g.Name)
+			c.DisChecked(1)
+			c.Violation(cs.g.Name+":data-differs-from-spec", fmt.Sprintf("%s Data() on a decoded point = %s, specification (length field vs EmbedLen) %s", cs.g.Name, got, o), rep)
 		}
 	}
 }
@@ -800,6 +906,8 @@ func runC17(c *kc.Ctx) {
 		"BLS12-381 hash-to-curve (kilic, CIRCL, gnark) and BN254 SvdW are not modelled: determinism, membership, distinctness and agreement of the three back-ends only",
 		"limb arithmetic of fe.go is compared at field level, not proved")
 	c17Embed(c)
+	c17DataLengthSweep(c)
+	c17LinkageBase(c)
 	c17Pick(c)
 	c17HashEd(c)
 	c17HashOthers(c)
